@@ -376,8 +376,15 @@ class Analysis:
         return sorted(seen), missing
 
 
-def property_roots(mf, prop):
-    return sorted({k for g in mf["properties"][prop] for k in mf["groups"][g]} | set(mf.get("roots", {}).get(prop, [])))
+def property_roots(mf, prop, keys=()):
+    """modelled functions + entry points; an entry ending in * stands for every part with that prefix (of the analysed tree)"""
+    out = {k for g in mf["properties"][prop] for k in mf["groups"][g]}
+    for r in mf.get("roots", {}).get(prop, []):
+        if r.endswith("*"):
+            out |= {k for k in keys if k.startswith(r[:-1])}
+        else:
+            out.add(r)
+    return sorted(out)
 
 
 def property_slices(repo, mf):
@@ -385,7 +392,7 @@ def property_slices(repo, mf):
     an = Analysis(repo)
     slices, missing = {}, {}
     for prop in sorted(mf["properties"]):
-        sl, miss = an.slice_of(property_roots(mf, prop), mf.get("cuts", {}).get(prop, []))
+        sl, miss = an.slice_of(property_roots(mf, prop, an.fp), mf.get("cuts", {}).get(prop, []))
         slices[prop], missing[prop] = sl, miss
     return an, slices, missing
 
@@ -400,7 +407,7 @@ if __name__ == "__main__":
     for prop in sorted(slices):
         print(prop, "->", len(slices[prop]), "missing", missing[prop])
         if len(sys.argv) > 2 and sys.argv[2] in (prop, "all"):
-            roots = set(property_roots(mf, prop))
+            roots = set(property_roots(mf, prop, an.fp))
             why = {}
             an.slice_of(sorted(roots), mf.get("cuts", {}).get(prop, []), why)
             for k in slices[prop]:
